@@ -129,7 +129,8 @@ func arConcrete(p *Prog) *arBounded {
 	add := func(desc, clause string, b []byte) { cases = append(cases, tcase{desc, b, clause}) }
 	G := "!<arch>\n"
 	// well-formed archives
-	names := []string{"debian-binary", "control.tar.gz/", "a b/", "x", "abcdefghijklmnop", "dir/sub/", "trailing//", "", "/", "#1/20", "//", "/0"}
+	// (two names in Latin-1 and UTF-8: the name column is bytes, and comes back as those bytes)
+	names := []string{"debian-binary", "control.tar.gz/", "a b/", "x", "abcdefghijklmnop", "dir/sub/", "trailing//", "", "/", "#1/20", "//", "/0", "caf\xe9.txt/", "\xc3\xa5ngstr\xc3\xb6m\xa0"}
 	sizes := []int{0, 1, 4, 5}
 	for i, n := range names {
 		for _, s := range sizes {
